@@ -82,6 +82,10 @@ pub async fn set_i32(s: &Socket, o: i32, v: i32) {
   s.set_option(o, v).await.unwrap_or_else(|e| panic!("set_option({o},{v}) failed: {e}"));
 }
 
+pub async fn set_maxmsgsize(s: &Socket, v: i64) {
+  s.set_option_raw(opt::MAXMSGSIZE, &v.to_ne_bytes()).await.unwrap_or_else(|e| panic!("set MAXMSGSIZE {v} failed: {e}"));
+}
+
 pub fn msg(data: Vec<u8>, more: bool) -> Msg {
   let mut m = Msg::from_vec(data);
   if more {
@@ -182,6 +186,7 @@ pub fn install_panic_watch() {
     let in_rzmq = location.contains("/repo/core/") || location.contains("xs_foundation") || location.contains("fibre-")
       || frames.iter().any(|f| f.contains("rzmq::") || f.contains("xs_foundation::"));
     frames.truncate(12);
+    eprintln!("[panic-watch] {} at {} (thread {:?}, in_rzmq={})", message.chars().take(200).collect::<String>(), location, std::thread::current().name(), in_rzmq);
     let rec = PanicRecord {
       location,
       message: message.chars().take(300).collect(),
